@@ -240,7 +240,7 @@ class VolSphere(VolSDFObject):
     """Volumetric Sphere."""
 
     def __init__(self, center: npt.ArrayLike, radius: float):
-        center = np.array(center)
+        center = np.array(center, dtype=np.float64)
         sdf = Sphere(_tp3f(center), radius)
         super().__init__(sdf.into())
 
@@ -313,7 +313,7 @@ class VolFrustumCone(VolSDFObject):
     """Volumetric Frustum."""
 
     def __init__(self, c1: npt.ArrayLike, r1: float, c2: npt.ArrayLike, r2: float):
-        c1, c2 = np.array(c1), np.array(c2)
+        c1, c2 = np.array(c1, dtype=np.float64), np.array(c2, dtype=np.float64)
         sdf = FrustumCone(_tp3f(c1), _tp3f(c2), r1, r2)
         super().__init__(sdf.into())
 
